@@ -183,7 +183,7 @@ func checkSuccess(c *reqgen.Config, v *reqgen.Verdict, o outcome) string {
 		}
 		var sentExt []reqgen.Option
 		for _, line := range p.hdr.Values("Sec-Websocket-Extensions") {
-			opts, ok := reqgen.StrictOptions(line)
+			opts, ok := reqgen.ListOptions(line)
 			if !ok {
 				return fmt.Sprintf("sent Sec-WebSocket-Extensions %q is not an option list", line)
 			}
@@ -199,7 +199,7 @@ func checkSuccess(c *reqgen.Config, v *reqgen.Verdict, o outcome) string {
 			}
 		}
 		for _, line := range p.hdr.Values("Sec-Websocket-Extensions") {
-			opts, ok := reqgen.StrictOptions(line)
+			opts, ok := reqgen.ListOptions(line)
 			if !ok {
 				return fmt.Sprintf("sent Sec-WebSocket-Extensions %q is not an option list", line)
 			}
@@ -313,10 +313,73 @@ func onlyCallbackObjections(v *reqgen.Verdict) bool {
 	return true
 }
 
+// sigHTTP2: ws.HTTPUpgrader upgrades a request whose version is HTTP/2.0 or
+// higher ("HTTP/1.1 (or a later 1.x)" is required of both upgraders).
+const sigHTTP2 = "C09/httpupgrader-accepts-http2-version"
+
+// sigHTList: an HT next to a list separator (legal optional whitespace of an
+// RFC 7230 comma list; "surrounding blanks ignored") makes the Connection /
+// Sec-WebSocket-Protocol / Sec-WebSocket-Extensions value malformed for both
+// upgraders.
+const sigHTList = "C09/ht-inside-list-not-whitespace"
+
+func probeHTTP2(t *testing.T) {
+	var accepted []string
+	for _, ver := range []string{"HTTP/2.0", "HTTP/2.1", "HTTP/3.0", "HTTP/9.9"} {
+		r := reqgen.Valid("/chat", "example.com", gridKey)
+		r.Version = ver
+		o, ok := runDefault(reqgen.HTTP, r.Render())
+		hx.Eval()
+		if ok && (o.err == nil || has101(o.out)) {
+			accepted = append(accepted, ver)
+		}
+	}
+	r := reqgen.Valid("/chat", "example.com", gridKey)
+	r.Version = "HTTP/2.0"
+	hx.Probe(t, sigHTTP2, fmt.Sprintf("ws.UpgradeHTTP answers 101 to a request with version %q (http.ReadRequest + hijackable writer); the statement requires HTTP/1.1 or a later 1.x, ws.Upgrader answers 505", accepted),
+		len(accepted) > 0, map[string]interface{}{"request": string(r.Render()), "versions_accepted": accepted})
+}
+
+func probeHTList(t *testing.T) {
+	var refused []string
+	try := func(kind reqgen.Kind, what string, req *reqgen.Request, cfg *reqgen.Config) {
+		var o outcome
+		ok := true
+		if kind == reqgen.Raw {
+			u, _ := cfg.Upgrader()
+			o = runRaw(u, req.Render(), transport{})
+		} else {
+			u, _ := cfg.HTTPUpgrader()
+			o, ok = runHTTP(u, req.Render(), 0)
+		}
+		hx.Eval()
+		if ok && o.err != nil {
+			refused = append(refused, fmt.Sprintf("%s %s -> %v", kind, what, o.err))
+		}
+	}
+	for _, kind := range []reqgen.Kind{reqgen.Raw, reqgen.HTTP} {
+		try(kind, "Connection: keep-alive,\\tUpgrade", reqgen.Valid("/", "example.com", gridKey).Set(reqgen.NameConnection, "keep-alive,\tUpgrade"), &reqgen.Config{Kind: kind})
+		try(kind, "Sec-WebSocket-Protocol: chat,\\tsuperchat (selector accepts superchat)", reqgen.Valid("/", "example.com", gridKey).Add(reqgen.NameProtocol, "chat,\tsuperchat"),
+			&reqgen.Config{Kind: kind, HasProtocol: true, Protocols: []string{"superchat"}})
+		try(kind, "Sec-WebSocket-Extensions: x-a;\\tp=1 (Negotiate accepts)", reqgen.Valid("/", "example.com", gridKey).Add(reqgen.NameExtensions, "x-a;\tp=1"),
+			&reqgen.Config{Kind: kind, ExtMode: reqgen.ExtNegotiate, Ext: map[string]reqgen.ExtPolicy{"x-a": {Act: reqgen.ExtAcceptAll}}})
+	}
+	hx.Probe(t, sigHTList, fmt.Sprintf("a compliant request whose list value has an HT next to a separator is refused with 400: %v", refused),
+		len(refused) > 0, map[string]interface{}{"request": string(reqgen.Valid("/", "example.com", gridKey).Set(reqgen.NameConnection, "keep-alive,\tUpgrade").Render()), "refused": refused})
+}
+
 // judge applies the property to one executed case; "" means it held.
 func judge(c *reqgen.Config, v *reqgen.Verdict, b *reqgen.Built, o outcome) string {
 	if v.UnicodeFoldUpgrade && hx.Known(sigUnicodeFold) {
 		hx.Exclude(sigUnicodeFold)
+		return ""
+	}
+	if v.HTTP2ToHTTPUpgrader && hx.Known(sigHTTP2) {
+		hx.Exclude(sigHTTP2)
+		return ""
+	}
+	if v.HTInList && hx.Known(sigHTList) {
+		hx.Exclude(sigHTList)
 		return ""
 	}
 	if o.err != nil && has101(o.out) {
@@ -563,7 +626,7 @@ func TestDefaultEntryPoints(t *testing.T) {
 		if msg := judge(cfg, &v, built, viaFunc); msg != "" {
 			t.Fatalf("%s", failText(req, cfg, &v, tr, viaFunc, "through the package-level function with the configuration assigned to the default upgrader: "+msg))
 		}
-		if v.UnicodeFoldUpgrade && hx.Known(sigUnicodeFold) {
+		if (v.UnicodeFoldUpgrade && hx.Known(sigUnicodeFold)) || (v.HTTP2ToHTTPUpgrader && hx.Known(sigHTTP2)) || (v.HTInList && hx.Known(sigHTList)) {
 			return
 		}
 		if msg := sameOutcome(viaMethod, viaFunc); msg != "" {
@@ -1196,6 +1259,10 @@ func TestKnownFindings(t *testing.T) {
 
 	// C09/not-hijackable-response-omits-header
 	probeNoHijackHeader(t)
+
+	// closed by the clause audit
+	probeHTTP2(t)
+	probeHTList(t)
 }
 
 func probeUnicodeFold(t *testing.T) {
